@@ -2238,8 +2238,11 @@ class BruteForceStreamIASolver:
         # xxxxxxxxxxxxxxxxxxxxxxxxxxxxxxxxxxxxxxxxxxxxxxxxxxxxxxxxxxxxxxxxx
 
         # Now that we tested every possible solution, lets keep the best
-        # one we found
+        # one we found (`clear` also resets the power, which is the same
+        # for every stream combination)
+        used_P = self._iasolver._P
         self._iasolver.clear()
+        self._iasolver._P = used_P
         self._iasolver._F = self._best_F
         self._iasolver._full_F = self._best_full_F
         self._iasolver._W_H = self._best_W_H
